@@ -12,7 +12,7 @@ use epserde::utils::AlignedCursor;
 use maligned::{A16, A64};
 use std::io::{Cursor, Read, Seek, SeekFrom, Write};
 
-const MAXLEN: usize = 20;
+const MAXLEN: usize = 6;
 
 fn build<T: maligned::Alignment>(content: &[u8; MAXLEN], len: usize, pos: usize) -> (AlignedCursor<T>, Cursor<Vec<u8>>) {
     let mut a = AlignedCursor::<T>::new();
@@ -123,13 +123,15 @@ macro_rules! cursor_seek {
     };
 }
 
-// @h cursor_seek_a16 props=C19 tier=quick kind=complete vars="state: content len<=20, any position (full usize); SeekFrom::{Start,End,Current} with full u64/i64 offsets" fns="utils/aligned_cursor.rs:seek,utils/aligned_cursor.rs:set_position,utils/aligned_cursor.rs:position"
+// @h cursor_seek_a16 props=C19 tier=quick kind=complete vars="state: content len<=6, any position (full usize); SeekFrom::{Start,End,Current} with full u64/i64 offsets" fns="utils/aligned_cursor.rs:seek,utils/aligned_cursor.rs:set_position,utils/aligned_cursor.rs:position"
 cursor_seek!(cursor_seek_a16, A16);
-// @h cursor_write_a16 props=C19 tier=quick kind=bounded bound="content<=20 bytes, position<=40, write<=5 bytes" vars="state (content, len, pos), data, w" fns="utils/aligned_cursor.rs:write"
-cursor_write!(cursor_write_a16, A16, 40, 5, 5);
-// @h cursor_read_a16 props=C19 tier=quick kind=bounded bound="content<=20 bytes, position<=40, read<=5 bytes" vars="state (content, len, pos), r" fns="utils/aligned_cursor.rs:read"
-cursor_read!(cursor_read_a16, A16, 40, 5, 5);
-// @h cursor_write_a64 props=C19 tier=thorough kind=bounded bound="content<=20 bytes, position<=80, write<=5 bytes" vars="state, data, w (64-byte units)" fns="utils/aligned_cursor.rs:write"
+// @h cursor_write_a16 props=C19 tier=quick kind=bounded bound="content<=6 bytes, position<=20, write<=3 bytes" vars="state (content, len, pos), data, w" fns="utils/aligned_cursor.rs:write"
+cursor_write!(cursor_write_a16, A16, 20, 3, 5);
+// @h cursor_write_a16_far props=C19 tier=thorough kind=bounded bound="content<=6 bytes, position<=40, write<=5 bytes" vars="state (content, len, pos), data, w" fns="utils/aligned_cursor.rs:write"
+cursor_write!(cursor_write_a16_far, A16, 40, 5, 5);
+// @h cursor_read_a16 props=C19 tier=quick kind=bounded bound="content<=6 bytes, position<=20, read<=5 bytes" vars="state (content, len, pos), r" fns="utils/aligned_cursor.rs:read"
+cursor_read!(cursor_read_a16, A16, 20, 5, 5);
+// @h cursor_write_a64 props=C19 tier=thorough kind=bounded bound="content<=6 bytes, position<=80, write<=5 bytes" vars="state, data, w (64-byte units)" fns="utils/aligned_cursor.rs:write"
 cursor_write!(cursor_write_a64, A64, 80, 5, 5);
 // @h cursor_seek_a64 props=C19 tier=thorough kind=complete vars="as cursor_seek_a16 with 64-byte units" fns="utils/aligned_cursor.rs:seek"
 cursor_seek!(cursor_seek_a64, A64);
